@@ -709,7 +709,7 @@ def typeof(e, cx):
             return typeof(e[1], cx)
         if e[2] == "len":
             return "usize"
-        if e[2] == "remainder":
+        if e[2] in ("remainder", "to_le_bytes"):
             return "bytes"
         return None
     if k == "if":
@@ -985,6 +985,12 @@ def stmt(s, cx):
             if n is None:
                 fail("array length not constant")
             el = typeof(e[1], cx) or (ty[1] if isinstance(ty, tuple) else None)
+            if el == "u8":          # byte arrays stay byte strings
+                v = const_eval(e[1], cx)
+                if v is None:
+                    fail("byte array initialiser")
+                bind(cx, name, "(List.replicate %d (%d : UInt8))" % (n, v), "bytes")
+                return
             for i in range(n):
                 bind(cx, "%s_%d" % (name, i), ex(e[1], cx, el), el)
             cx.types[name] = ("arr", el, ("num", n, None))
@@ -1043,6 +1049,10 @@ def stmt(s, cx):
             return
         if e[0] == "method" and e[2] == "copy_from_slice":
             d = e[1]
+            if d[0] == "var" and d[1] not in cx.subst and cx.types.get(lid(d[1])) == "bytes":
+                n = lid(d[1])
+                bind(cx, n, "(setSlice %s 0 %s)" % (n, ex(e[3][0], cx)), "bytes")
+                return
             if d[0] == "index" and d[2][0] == "range" and d[1][0] == "var" and cx.types.get(lid(d[1][1])) == "bytes":
                 n = lid(d[1][1])
                 lo = "0" if d[2][1] is None else ex(d[2][1], cx, "usize")
@@ -1059,6 +1069,10 @@ def stmt(s, cx):
                 return
         if e[0] == "if":
             if_stmt(e, cx)
+            return
+        if e[0] == "method" and e[2] == "zeroize" and not e[3] and e[1][0] == "var" and cx.types.get(lid(e[1][1])) == "bytes":
+            n = lid(e[1][1])
+            bind(cx, n, "(List.replicate %s.length (0 : UInt8))" % n, "bytes")
             return
         fail("expression statement %r" % (e[:3],))
     if k == "for":
@@ -1271,6 +1285,8 @@ def for_stmt(s, cx):
 
 # ------------------------------------------------------------------------------------------------ function-level driver
 def lean_type(t):
+    if isinstance(t, tuple) and t[0] == "arr" and t[1] == "u8":
+        return "Bytes"
     if t in WIDTH:
         return "Nat"
     if t == "bool":
@@ -1514,7 +1530,7 @@ def translate_region(src, fn, fns, consts, start, stop, lean_name, params, pre, 
     for o in outputs:
         if o not in cx.types:
             fail("output %s not defined in region of %s" % (o, fn))
-    head = "def %s %s : %s :=" % (lean_name, " ".join(lean_params), " × ".join("Nat" for _ in outputs))
+    head = "def %s %s : %s :=" % (lean_name, " ".join(lean_params), " × ".join("Bytes" if cx.types.get(o) == "bytes" else "Nat" for o in outputs))
     res = "(%s)" % ", ".join(outputs) if len(outputs) > 1 else outputs[0]
     return "\n".join([head] + cx.lines + ["  " + res]) + "\n"
 
@@ -1707,7 +1723,58 @@ def subst_call(e, text, var):
     return e
 
 
-KERNELS = {"Protected": k_protected, "Core": k_core, "Argon2": k_argon2, "Utils": k_utils, "Poly1305": k_poly1305, "Blake2b": k_blake2b, "SipHash": k_siphash}
+def crate_consts(repo, names):
+    src = open(os.path.join(repo, "src/constants.rs")).read()
+    out = {}
+
+    def names_in(e, acc):
+        if isinstance(e, tuple):
+            if e[0] == "var":
+                acc.add(e[1])
+            for x in e[1:]:
+                names_in(x, acc)
+        elif isinstance(e, list):
+            for x in e:
+                names_in(x, acc)
+
+    def resolve(n, depth=0):
+        if n in out:
+            return
+        if depth > 8:
+            fail("constant %s: reference chain too deep" % n)
+        ty, val = find_const(src, n)
+        e = parse_expr(val)
+        refs = set()
+        names_in(e, refs)
+        for r in refs:
+            resolve(r, depth + 1)
+        v = const_eval(e, Ctx({}, out))
+        if v is None:
+            fail("constant %s is not a literal expression" % n)
+        out[n] = v
+    for n in names:
+        resolve(n)
+    return out
+
+
+def k_curve(repo):
+    """scalar clamping (X25519 and Ed25519→X25519) and the BLAKE2b parameter assembly of crypto_kdf"""
+    out = header("src/scalarmult_curve25519.rs, src/classic/crypto_sign_ed25519.rs, src/classic/crypto_kdf.rs", "Curve")
+    consts = crate_consts(repo, ["CRYPTO_SCALARMULT_CURVE25519_SCALARBYTES", "CRYPTO_SCALARMULT_CURVE25519_BYTES", "CRYPTO_HASH_SHA512_BYTES",
+                                 "CRYPTO_GENERICHASH_BLAKE2B_PERSONALBYTES", "CRYPTO_GENERICHASH_BLAKE2B_SALTBYTES", "CRYPTO_KDF_CONTEXTBYTES",
+                                 "CRYPTO_KDF_BLAKE2B_BYTES_MIN", "CRYPTO_KDF_BLAKE2B_BYTES_MAX"])
+    src = strip_tests(open(os.path.join(repo, "src/scalarmult_curve25519.rs")).read())
+    out += translate_fn(src, "clamp", {}, consts, ret_bytes=True) + "\n"
+    src = strip_tests(open(os.path.join(repo, "src/classic/crypto_sign_ed25519.rs")).read())
+    out += translate_fn(src, "clamp_hash", {}, consts, ret_bytes=True) + "\n"
+    src = strip_tests(open(os.path.join(repo, "src/classic/crypto_kdf.rs")).read())
+    out += translate_region(src, "crypto_kdf_derive_from_key", {}, consts, start="let mut ctx_padded", stop="let state =", lean_name="kdf_params",
+                            params=[("subkey_id", "u64"), ("context", "bytes")], pre={}, rename={}, outputs=["ctx_padded", "salt"]) + "\n"
+    out += "def KDF_BYTES_MIN : Nat := %d\ndef KDF_BYTES_MAX : Nat := %d\n\n" % (consts["CRYPTO_KDF_BLAKE2B_BYTES_MIN"], consts["CRYPTO_KDF_BLAKE2B_BYTES_MAX"])
+    return out + "end DryocVerif.Gen.Curve\n"
+
+
+KERNELS = {"Curve": k_curve, "Protected": k_protected, "Core": k_core, "Argon2": k_argon2, "Utils": k_utils, "Poly1305": k_poly1305, "Blake2b": k_blake2b, "SipHash": k_siphash}
 
 
 def main(argv):
